@@ -369,8 +369,9 @@ def run(tier, seed, replay=None):
                 break
         o = O.make_impl(s)
         tg = np.asarray(o.bases[0].greville())
-        which = rng.choice(['x', 'xt', 'xv', 'xa'])
-        args = dict(obj=O.spec_json(s), f=which)
+        which = rng.choice(['x', 'xt', 'xv', 'xa', 'xv', 'xa'])
+        normalized = which in ('xv', 'xa') and rng.random() < 0.5
+        args = dict(obj=O.spec_json(s), f=which, normalized=normalized)
         try:
             def avg(d):
                 out = []
@@ -378,8 +379,13 @@ def run(tier, seed, replay=None):
                     a = np.asarray(o.derivative(t_, d)).reshape(-1)
                     if o.bases[0].continuity(t_) < d and o.start(0) < t_ < o.end(0):
                         a = (a + np.asarray(o.derivative(t_, d, above=False)).reshape(-1)) / 2.0
+                    if normalized:
+                        # "normalized to have length 1": the (averaged) vector handed to f is a unit vector
+                        a = a / np.linalg.norm(a)
                     out.append(a)
                 return np.array(out)
+            if normalized and not np.all(np.isfinite(avg(1 if which == 'xv' else 2))):
+                continue      # a vanishing velocity / acceleration at a Greville point has no direction
             X = np.asarray(o.evaluate(tg)).reshape(len(tg), dim)
             if which == 'x':
                 f1 = lambda x: 2 * x + 1  # noqa
@@ -393,7 +399,7 @@ def run(tier, seed, replay=None):
             else:
                 f1 = lambda x, a: x - 0.125 * a  # noqa
                 want = X - 0.125 * avg(2)
-            m1 = cf.manipulate(o.clone(), f1)
+            m1 = cf.manipulate(o.clone(), f1, normalized=normalized)
             count('manipulate')
             got = np.asarray(m1.evaluate(tg)).reshape(len(tg), dim)
             if not close(got, want, 50.0, 1e-7):
@@ -401,7 +407,7 @@ def run(tier, seed, replay=None):
             if which in ('x', 'xv', 'xa'):
                 if which == 'xt':
                     pass
-                m2 = cf.manipulate(o.clone(), f1, vectorized=True)
+                m2 = cf.manipulate(o.clone(), f1, normalized=normalized, vectorized=True)
                 got2 = np.asarray(m2.evaluate(tg)).reshape(len(tg), dim)
                 if not close(got2, want, 50.0, 1e-7):
                     fail('manipulate', dict(args, vectorized=True), 'the vectorized result does not interpolate f at the Greville points (off by %g)' % np.abs(got2 - want).max())
